@@ -113,7 +113,8 @@ Inductive case :=
 | KLinkTail (s : bytes) (obs : option (nat * bytes * bytes))
 | KCharRef (s : bytes) (len : nat) (unesc : bytes)
 | KLines (s : bytes) (ls : list bytes)
-| KBlocks (ops : list (tok N)).
+| KBlocks (ops : list (tok N))
+| KCandidate (got ref : bytes).   (* unconfirmed disagreement with the reference proxy: recorded, not judged *)
 
 Definition opt_nat_eqb (a b : option nat) : bool :=
   match a, b with Some x, Some y => Nat.eqb x y | None, None => true | _, _ => false end.
@@ -164,6 +165,7 @@ Definition judge1 (c : case) : N :=
                && (Nat.eqb len 0 || bytes_eqb (unescape_entity (firstn len s)) unesc))
   | KLines s ls => code (check_lines s ls) (list_eqb bytes_eqb (split_lines s) ls)
   | KBlocks ops => code (blocks_ok ops) true
+  | KCandidate _ _ => 0
   end.
 
 Definition judge := judge_with judge1.
